@@ -411,6 +411,7 @@ func cloneValue(v Value) Value {
 
 type Server struct {
 	opMu sync.Mutex // serialises logged operations (hook + execution): Seq order == execution order
+	hold func(e Event)
 	mu   sync.Mutex // guards all fields below and all conn tx state
 	db   *DB
 	ln   net.Listener
@@ -536,6 +537,15 @@ func (s *Server) SetFaultHook(h func(e Event) Fault) {
 	s.mu.Lock()
 	defer s.mu.Unlock()
 	s.hook = h
+}
+
+// SetHoldHook installs h (nil disables). h runs before an operation is ordered and executed, with Conn,
+// Kind, SQL, Args, Table and InTx filled in (no Seq yet); it may block: only the calling connection
+// waits, every other connection carries on.
+func (s *Server) SetHoldHook(h func(e Event)) {
+	s.mu.Lock()
+	defer s.mu.Unlock()
+	s.hold = h
 }
 
 // Log returns the events so far, ordered by Seq.
@@ -679,6 +689,15 @@ func (c *conn) view() *DB {
 // and logs. alive=false means the connection has been closed.
 func (c *conn) op(st *stmt, args []Value, data [][]Value) (res *result, perr *pgErr, alive bool) {
 	s := c.s
+	// the hold hook may block THIS connection's operation without stopping the others (it runs before the
+	// operation takes its place in the global order)
+	s.mu.Lock()
+	hold := s.hold
+	pre := Event{Conn: c.id, Kind: st.kind, SQL: st.sql, Args: args, Table: st.table, InTx: c.tx != 0}
+	s.mu.Unlock()
+	if hold != nil {
+		hold(pre)
+	}
 	s.opMu.Lock()
 	defer s.opMu.Unlock()
 	s.mu.Lock()
